@@ -114,6 +114,12 @@ def gen_history(rnd, g, kind=""):
             events.append({"ev": "remove", "q": q})
         else:
             events.append({"ev": "clean"})
+    if rnd.random() < 0.35:
+        # plain, then with extra parameters / an input value, then plain again: the middle one must leave no trace
+        q = rnd.choice(fam)
+        mid = rnd.choice([{"extra": rnd.choice([["5"], {"y": "4"}, {"a": "w"}, {"nope": "1"}])}, {"input": rnd.randrange(len(E.INPUTS))}])
+        at = rnd.randrange(len(events) + 1)
+        events[at:at] = [{"ev": "eval", "q": q}, dict({"ev": "eval", "q": q}, **mid), {"ev": "eval", "q": q}]
     return fam, events
 
 
